@@ -16,18 +16,30 @@ Blocks are abstract: a data block is its submission number (0, 1, 2, …).  DEFL
 A `Write` call that completes `k` blocks is the script op `write k`; whether `Flush` finds a non-empty
 active block is a flag of the script (`flush true`), so every concrete script is covered.
 
-Fault oracle: `cfg.fault i = true` iff the `i`-th call (0-based, counting every call) of the underlying
-writer's `Write` fails (an error, possibly after partial data: such a block is not in `out`).
+Fault oracles: `cfg.fault i = true` iff the `i`-th call (0-based, counting every call) of the underlying
+writer's `Write` fails (an error, possibly after partial data: such a block is not in `out`);
+`cfg.cfault b = true` iff compressing block `b` fails (`compressor.writeBlock` sets `c.err`: a gzip header
+error or `ErrBlockOverflow`), which the emitter finds when it takes the compressor from its `flush` channel
+(`writeOK`: `if c.err != nil { bg.setErr(c.err); return false }`; on the unchanged tree without `qwg.Done()`).
 
 `cfg.repaired = true` is the protocol after fixes/C09-1 (the emitter keeps draining the queue after the
 first failure; `qwg.Done` is deferred so that it runs after `setErr`); `false` is the unchanged tree
 (the emitter `break`s after the first failure; `qwg.Done()` runs before `setErr`).
 
 Atomic actions are single channel operations, latch reads/writes (mutex), WaitGroup operations and `go`
-statements, except for these merges (each a left-mover, so no behaviour is lost):
-`bg.queue <- c; bg.qwg.Add(1); go c.writeBlock()` is one step; in `Flush` the receive from `waiting` and
-that enqueue are one step; in `Close`, `c.writeBlock()` (synchronous) and `close(bg.queue)` are one step;
-the emitter's `<-qw.flush`, its latch read (repaired tree) and the call of the underlying `Write` are one step.
+statements, except for these seven merges (each merged action is local to its goroutine or a left-mover or both-mover,
+so no behaviour of the finer-grained program is lost):
+1. `bg.queue <- c; bg.qwg.Add(1); go c.writeBlock()` is one step (`wSub`, `cEnq` without the `go`);
+2. in `Flush` the receive from `waiting` and that enqueue are one step (`fSwap`);
+3. in `Close`, `c.writeBlock()` (synchronous) and `bg.closed = true; close(bg.queue)` are one step (`cComp`);
+4. the emitter's `<-qw.flush`, its `c.err` test, its latch read (repaired tree) and the call of the underlying
+   `Write` are one step (`hold`);
+5. `Wait`: `bg.qwg.Wait()` and the following `bg.Error()` are one step (`wtBlock`) — exact: with `pending = 0`
+   and the single API goroutine inside `Wait`, nothing can set the latch in between;
+6. `Write`: the loop-exit test `err == nil` / `len(b) > 0` and the final `return n, bg.Error()` are one latch
+   read (`wLoop 0`) — the first read's nil result leads to the second read, whose result is the one returned;
+7. `Close`: the test `bg.err == nil` and the underlying `Write` of the EOF marker are one step (`cEof`) — exact:
+   the emitter has finished (`wg.Wait()` returned), nobody else can set `bg.err`.
 -/
 namespace Hts.Model.WriterLTS
 
@@ -95,6 +107,7 @@ structure Cfg where
   script : List Op
   fault : Nat → Bool
   repaired : Bool
+  cfault : Nat → Bool := fun _ => false
 
 /-- `wc++; if wc < 2 { wc = 2 }` -/
 def Cfg.n (cfg : Cfg) : Nat := if cfg.wc + 1 < 2 then 2 else cfg.wc + 1
@@ -219,7 +232,11 @@ def emStep (cfg : Cfg) (s : State) : Option (Option Ev × State) :=
     | [] => if s.closed then some (none, { s with em := .done }) else none
   | .hold it =>
     if it.st = .flushed then
-      if cfg.repaired && s.err then some (none, { s with em := .rel it })
+      if cfg.cfault it.blk then
+        -- `c.err != nil`: nothing is written; `setErr` next (repaired: then the deferred `qwg.Done()`;
+        -- unchanged tree: no `Done` at all, and the emitter leaves its loop)
+        if cfg.repaired then some (none, { s with em := .failed it }) else some (none, { s with em := .latch it })
+      else if cfg.repaired && s.err then some (none, { s with em := .rel it })
       else if cfg.fault s.nwrites then
         some (some (.uw (some it.blk) false), { s with nwrites := s.nwrites + 1, em := .failed it })
       else
